@@ -241,6 +241,44 @@ class Analyzer:
 # --------------------------------------------------------------------------- #
 
 
+def literal_strings(f, e):
+    """the finite set of strings an expression can denote: a string literal, or a name bound only as the target (or a component of
+    the tuple target) of `for` loops over literal displays of string literals / of tuples with a string literal in that position"""
+    if isinstance(e, ast.Constant) and isinstance(e.value, str):
+        return {e.value}
+    if not isinstance(e, ast.Name):
+        return None
+    out = set()
+    bound_elsewhere = False
+    for n in ast.walk(f.node):
+        if isinstance(n, (ast.For, ast.comprehension)):
+            tgt = n.target
+            pos = None
+            if isinstance(tgt, ast.Name) and tgt.id == e.id:
+                pos = -1
+            elif isinstance(tgt, ast.Tuple):
+                for i, t_ in enumerate(tgt.elts):
+                    if isinstance(t_, ast.Name) and t_.id == e.id:
+                        pos = i
+            if pos is None:
+                continue
+            if not isinstance(n.iter, (ast.Tuple, ast.List)):
+                return None
+            for el in n.iter.elts:
+                c = el if pos == -1 else (el.elts[pos] if isinstance(el, ast.Tuple) and len(el.elts) > pos else None)
+                if not (isinstance(c, ast.Constant) and isinstance(c.value, str)):
+                    return None
+                out.add(c.value)
+        elif isinstance(n, (ast.Assign, ast.AugAssign, ast.AnnAssign, ast.NamedExpr)):
+            tg = n.targets if isinstance(n, ast.Assign) else [n.target]
+            if any(isinstance(x, ast.Name) and x.id == e.id for t_ in tg for x in ast.walk(t_)):
+                bound_elsewhere = True
+    if bound_elsewhere or not out or e.id in f.all_params():
+        return None
+    return out
+
+
+
 def norm_path(path):
     """bound the length of an access path (longer paths are summarised by a trailing '*')."""
     path = tuple(path)
@@ -943,40 +981,7 @@ class FuncAnalysis:
         return self.getattr_refs(base, e.attr, e, env, recv_node=e.value)
 
     def literal_strings(self, e):
-        """the finite set of strings an expression can denote: a string literal, or a name bound only as the target (or a component of
-        the tuple target) of `for` loops over literal displays of string literals / of tuples with a string literal in that position"""
-        if isinstance(e, ast.Constant) and isinstance(e.value, str):
-            return {e.value}
-        if not isinstance(e, ast.Name):
-            return None
-        out = set()
-        bound_elsewhere = False
-        for n in ast.walk(self.f.node):
-            if isinstance(n, ast.For):
-                tgt = n.target
-                pos = None
-                if isinstance(tgt, ast.Name) and tgt.id == e.id:
-                    pos = -1
-                elif isinstance(tgt, ast.Tuple):
-                    for i, t_ in enumerate(tgt.elts):
-                        if isinstance(t_, ast.Name) and t_.id == e.id:
-                            pos = i
-                if pos is None:
-                    continue
-                if not isinstance(n.iter, (ast.Tuple, ast.List)):
-                    return None
-                for el in n.iter.elts:
-                    c = el if pos == -1 else (el.elts[pos] if isinstance(el, ast.Tuple) and len(el.elts) > pos else None)
-                    if not (isinstance(c, ast.Constant) and isinstance(c.value, str)):
-                        return None
-                    out.add(c.value)
-            elif isinstance(n, (ast.Assign, ast.AugAssign, ast.AnnAssign, ast.NamedExpr)):
-                tg = n.targets if isinstance(n, ast.Assign) else [n.target]
-                if any(isinstance(x, ast.Name) and x.id == e.id for t_ in tg for x in ast.walk(t_)):
-                    bound_elsewhere = True
-        if bound_elsewhere or not out or e.id in self.f.all_params():
-            return None
-        return out
+        return literal_strings(self.f, e)
 
     def getattr_refs(self, base, attr, node, env, recv_node=None):
         if not base:
